@@ -57,6 +57,8 @@ def run(c):
     classes = ["band_" + c["band"], "layout_" + sc["layout"], "spec_" + sc["kind"], "values_" + sc["values"]]
     if sc.get("history"):
         classes.append("object_modified_in_place_after_earlier_queries")
+    if sc.get("memory"):
+        classes.append("stored_arrays_" + sc["memory"] + "_layout")
     if sc.get("dtype"):
         classes.append("density_stored_as_" + sc["dtype"])
     spec = GS.build(sc)
